@@ -73,3 +73,240 @@ fn realdirpath_batch() {
         }
     }
 }
+
+// ------------------------------------------------------------------------------------------------------------------
+// Database-state replay: materialise a (Files, Deps, filesystem) state chosen by the solver in a real .redo/db.sqlite3 and
+// real files, run the real is_dirty / File methods on it, print the verdict and the rows afterwards.
+//
+// line:  R=<runid> T=<target rowid> OP=<is_dirty|ood|is_source|...> [F=<id>,<namehex>,<gen>,<ovr>,<checked>,<changed>,<failed>,
+//        <stamp>,<csumhex>]... [D=<target>,<source>,<m|c>,<delete_me>]... [X=<namehex>,<fs>]...
+//   ints: decimal or N (NULL);  gen/ovr: 0|1|N
+//   stamp: N (NULL) | M ("0") | S (recorded stamp "S1")
+//   fs:    none | same (file exists with exactly the recorded stamp) | mtime (exists; mtime differs from what is recorded)
+//          | mode (exists; only st_mode differs from what is recorded) | dir
+fn replay_kv<'a>(parts: &'a [&'a str], key: &str) -> Vec<&'a str> {
+    parts
+        .iter()
+        .filter(|p| p.starts_with(key) && p.as_bytes().get(key.len()) == Some(&b'='))
+        .map(|p| &p[key.len() + 1..])
+        .collect()
+}
+
+fn opt_i64(s: &str) -> Option<i64> {
+    if s == "N" {
+        None
+    } else {
+        Some(s.parse().unwrap())
+    }
+}
+
+fn alter_field(stamp: &str, idx: usize) -> String {
+    let mut f: Vec<String> = stamp.split('-').map(|s| s.to_string()).collect();
+    if idx == 0 {
+        f[0] = "12345.000000".to_string();
+    } else {
+        f[idx] = format!("{}", f[idx].parse::<u64>().unwrap() ^ 0o111);
+    }
+    f.join("-")
+}
+
+pub(crate) struct ReplayWorld {
+    pub ps: ProcessState,
+    pub dir: tempfile::TempDir,
+}
+
+pub(crate) fn build_world(parts: &[&str]) -> ReplayWorld {
+    let dir = tempfile::Builder::new().prefix("verif-db").tempdir_in("/var/tmp").unwrap();
+    let base = dir.path().to_path_buf();
+    let runid: i64 = replay_kv(parts, "R")[0].parse().unwrap();
+    for (k, _) in std::env::vars_os() {
+        if k.to_str().map(|k| k.starts_with("REDO")).unwrap_or(false) {
+            std::env::remove_var(k);
+        }
+    }
+    std::env::set_var("REDO", "1");
+    std::env::set_var("REDO_BASE", &base);
+    std::env::set_var("REDO_STARTDIR", &base);
+    std::env::set_var("REDO_PWD", "");
+    std::env::set_var("REDO_TARGET", "");
+    std::env::set_var("REDO_RUNID", runid.to_string());
+    std::env::set_var("REDO_LOG", "0");
+    std::env::set_current_dir(&base).unwrap();
+    let env = Env::inherit().unwrap();
+    let ps = ProcessState::init(env).unwrap();
+    // filesystem first (recorded stamps are derived from the real ones)
+    let mut fskind: std::collections::HashMap<Vec<u8>, String> = std::collections::HashMap::new();
+    for x in replay_kv(parts, "X") {
+        let f: Vec<&str> = x.split(',').collect();
+        let name = unhex(f[0]);
+        fskind.insert(name.clone(), f[1].to_string());
+        let p = base.join(OsStr::from_bytes(&name));
+        match f[1] {
+            "none" => {}
+            "dir" => std::fs::create_dir_all(&p).unwrap(),
+            _ => {
+                if let Some(d) = p.parent() {
+                    std::fs::create_dir_all(d).unwrap();
+                }
+                std::fs::write(&p, b"0123456789").unwrap();
+            }
+        }
+    }
+    for frow in replay_kv(parts, "F") {
+        let f: Vec<&str> = frow.split(',').collect();
+        let id: i64 = f[0].parse().unwrap();
+        let name = String::from_utf8(unhex(f[1])).unwrap();
+        let real = {
+            let p = base.join(&name);
+            match std::fs::symlink_metadata(&p) {
+                Ok(m) => Some(Stamp::from_metadata(&m).unwrap().0.into_owned()),
+                Err(_) => None,
+            }
+        };
+        let kind = fskind.get(name.as_bytes()).map(|s| s.as_str()).unwrap_or("none");
+        let stamp: Option<String> = match f[7] {
+            "N" => None,
+            "M" => Some("0".to_string()),
+            _ => Some(match (kind, &real) {
+                ("same", Some(r)) => r.clone(),
+                ("mtime", Some(r)) => alter_field(r, 0),
+                ("mode", Some(r)) => alter_field(r, 3),
+                ("dir", _) => "1.000000-10-100-33188-0-0".to_string(),
+                _ => "1.000000-10-100-33188-0-0".to_string(),
+            }),
+        };
+        let csum = if f[8] == "N" { None } else { Some(String::from_utf8(unhex(f[8])).unwrap()) };
+        let b = |s: &str| -> Option<bool> {
+            match s {
+                "N" => None,
+                "1" => Some(true),
+                _ => Some(false),
+            }
+        };
+        if name == ALWAYS {
+            ps.db
+                .execute(
+                    "update Files set checked_runid=?, changed_runid=?, failed_runid=? where name=?",
+                    params![opt_i64(f[4]), opt_i64(f[5]), opt_i64(f[6]), name],
+                )
+                .unwrap();
+            continue;
+        }
+        ps.db
+            .execute(
+                "insert or replace into Files (rowid, name, is_generated, is_override, checked_runid, changed_runid, failed_runid, stamp, csum) values (?,?,?,?,?,?,?,?,?)",
+                params![id, name, b(f[2]), b(f[3]), opt_i64(f[4]), opt_i64(f[5]), opt_i64(f[6]), stamp, csum],
+            )
+            .unwrap();
+    }
+    for d in replay_kv(parts, "D") {
+        let f: Vec<&str> = d.split(',').collect();
+        ps.db
+            .execute(
+                "insert or replace into Deps (target, source, mode, delete_me) values (?,?,?,?)",
+                params![f[0].parse::<i64>().unwrap(), f[1].parse::<i64>().unwrap(), f[2], f[3].parse::<i64>().unwrap()],
+            )
+            .unwrap();
+    }
+    ReplayWorld { ps, dir }
+}
+
+pub(crate) fn dump_rows(ps: &ProcessState) -> String {
+    let mut out = Vec::new();
+    let mut stmt = ps
+        .db
+        .prepare("select rowid, is_generated, is_override, checked_runid, changed_runid, failed_runid, stamp, csum from Files order by rowid")
+        .unwrap();
+    let mut rows = stmt.query([]).unwrap();
+    while let Some(r) = rows.next().unwrap() {
+        let f = |i: usize| -> String {
+            match r.get::<usize, Option<i64>>(i).unwrap() {
+                Some(x) => x.to_string(),
+                None => "N".to_string(),
+            }
+        };
+        let stamp: Option<String> = r.get(6).unwrap();
+        let csum: Option<String> = r.get(7).unwrap();
+        out.push(format!(
+            "{}:{},{},{},{},{},{},{}",
+            r.get::<usize, i64>(0).unwrap(),
+            f(1),
+            f(2),
+            f(3),
+            f(4),
+            f(5),
+            match stamp.as_deref() {
+                None => "N",
+                Some("0") => "M",
+                Some(_) => "S",
+            },
+            match csum.as_deref() {
+                None | Some("") => "N",
+                Some(_) => "C",
+            }
+        ));
+    }
+    let mut deps = Vec::new();
+    let mut stmt = ps.db.prepare("select target, source, mode, delete_me from Deps order by target, source").unwrap();
+    let mut rows = stmt.query([]).unwrap();
+    while let Some(r) = rows.next().unwrap() {
+        deps.push(format!(
+            "{}>{}:{}:{}",
+            r.get::<usize, i64>(0).unwrap(),
+            r.get::<usize, i64>(1).unwrap(),
+            r.get::<usize, String>(2).unwrap(),
+            r.get::<usize, Option<i64>>(3).unwrap().unwrap_or(-1)
+        ));
+    }
+    format!("ROWS={} DEPS={}", out.join(";"), deps.join(";"))
+}
+
+#[test]
+fn dbstate_batch() {
+    use crate::deps::{is_dirty, Dirtiness, DirtyCallbacks};
+    let home = std::env::current_dir().unwrap();
+    for (i, l) in lines().iter().enumerate() {
+        let parts: Vec<&str> = l.split(' ').collect();
+        let mut w = build_world(&parts);
+        let target: i64 = replay_kv(&parts, "T")[0].parse().unwrap();
+        let op = replay_kv(&parts, "OP")[0];
+        let res = std::panic::catch_unwind(std::panic::AssertUnwindSafe(|| -> String {
+            let mut ptx = ProcessTransaction::new(&mut w.ps, TransactionBehavior::Immediate).unwrap();
+            let mut f = File::from_id(&mut ptx, target).unwrap();
+            let v = match op {
+                "is_dirty" => {
+                    let mut cb = DirtyCallbacks::default();
+                    match is_dirty(&mut ptx, &mut f, &mut cb) {
+                        Ok(Dirtiness::Clean) => "Clean".to_string(),
+                        Ok(Dirtiness::Dirty) => "Dirty".to_string(),
+                        Ok(Dirtiness::NeedTargets(t)) => format!(
+                            "Need:{}",
+                            t.iter().map(|f| f.id().to_string()).collect::<Vec<_>>().join(",")
+                        ),
+                        Err(e) => format!("Err:{:?}", e.kind()).replace(' ', ""),
+                    }
+                }
+                "roles" => format!(
+                    "source={:?},target={:?}",
+                    f.is_source(ptx.state().env()).unwrap(),
+                    f.is_target(ptx.state().env()).unwrap()
+                ),
+                "set_failed" => {
+                    let env = ptx.state().env().clone();
+                    f.set_failed(&env).unwrap();
+                    f.save(&mut ptx).unwrap();
+                    "done".to_string()
+                }
+                _ => panic!("unknown op"),
+            };
+            ptx.commit().unwrap();
+            v
+        }));
+        let verdict = match res {
+            Ok(v) => v,
+            Err(_) => "PANIC".to_string(),
+        };
+        println!("VERIF-OUT {} VERDICT={} {}", i, verdict, dump_rows(&w.ps));
+        std::env::set_current_dir(&home).unwrap();
+    }
+}
